@@ -83,10 +83,10 @@ def inlineWith (iter : List Obj → List Obj) (order : List Obj) (g : LGraph) (S
 
 /-! ### `replaceorder = toposort(...)` through the C07 model, keys interned by their position in the graph -/
 
-/-- position of a key in the graph's key list -/
-def idxIn (K : List Obj) (k : Obj) : Option Nat :=
-  let i := K.idxOf k
-  if i < K.length then some i else none
+/-- position of (the first occurrence of) a key in the graph's key list -/
+def idxIn : List Obj → Obj → Option Nat
+  | [], _ => none
+  | x :: xs, k => if x == k then some 0 else (idxIn xs k).map (· + 1)
 
 /-- the `dependencies` mapping as a graph over positions; entry `i` is the `i`-th item of the dict -/
 def depGraphFrom (iter : List Obj → List Obj) (K : List Obj) : Nat → LGraph → Dask.GraphAlg.Graph
